@@ -166,6 +166,22 @@ theorem C13_nested_filter_copy (h : RHeap) (col : Nat) (p : Pred) (row : PVal) :
   ⟨f.1.src, f.1.own, f.2, fun out hv => recurse_ok h col p row out hv⟩
 
 open Pydap.RowHeap in
+/-- **… and the result is the filtered copy, stated on the source alone.**  On a heap without dangling references
+    (`Closed`), whenever `recurse` returns: the returned tuple's cell `col` is a new list holding exactly the records
+    of the source row's cell `col` that pass the clause's test — both the records and the test read in the SOURCE heap
+    `h` — and every other cell is the source row's cell. -/
+theorem C13_nested_filter_value (h : RHeap) (hc : Closed h) (col : Nat) (p : Pred) (row out : PVal)
+    (hv : (recurse h col p row).val = .ok out) :
+    ∃ cells cell recs kept,
+      h.items row = .ok cells ∧ cells[col]? = some cell ∧ h.items cell = .ok recs ∧
+      filterRecs h p recs = .ok kept ∧
+      (recurse h col p row).heap.get (.own (h.own.length + 2))
+        = some ⟨.tuple, cells.set col (.ref (.own (h.own.length + 1)))⟩ ∧
+      (recurse h col p row).heap.get (.own (h.own.length + 1)) = some ⟨.list, kept⟩ ∧
+      out = .ref (.own (h.own.length + 2)) :=
+  recurse_ok_closed h hc col p row out hv
+
+open Pydap.RowHeap in
 /-- **Serving a request never writes a source record.**  For every source (objects of any representation),
     every stream of record values, every list of filters (`op(a(row), b(row))` of clauses on outer columns, `bool` of
     clauses on nested columns) and every chain of maps (any number of clauses on nested and on outer columns,
@@ -235,6 +251,16 @@ example : (recurse ⟨exSrc, []⟩ 1 exPred (.ref (.src 0))).ok? = some (.ref (.
     (recurse ⟨exSrc, []⟩ 1 exPred (.ref (.src 0))).heap.own
       = [⟨.list, [.atom 1, .ref (.own 1)]⟩, ⟨.list, [.ref (.src 3)]⟩, ⟨.tuple, [.atom 1, .ref (.own 1)]⟩] ∧
     (recurse ⟨exSrc, []⟩ 1 exPred (.ref (.src 0))).heap.src = exSrc := by decide
+
+/-- the example source has no dangling reference (`C13_nested_filter_value` applies to it) -/
+example : Closed ⟨exSrc, []⟩ := by
+  intro l o hg v hv
+  cases l with
+  | own i => simp [RHeap.get] at hg
+  | src i =>
+    simp only [RHeap.get, exSrc] at hg
+    rcases i with _ | _ | _ | _ | _ | i <;> simp at hg <;> subst hg <;> simp at hv <;>
+      (try rcases hv with rfl | rfl) <;> (try subst hv) <;> simp [Resolves, RHeap.get, exSrc]
 
 /-- the statement can tell the difference: the variant that copies only tuples (`if isinstance(row, tuple): row =
     list(row)`) run on the same list record stores INTO THE SOURCE RECORD — the source no longer holds `rec(10)` — and
